@@ -33,7 +33,8 @@ def cases(tier, rng):
             {
                 "seed": int(rng.integers(1 << 30)),
                 "kind": "energy" if i % 2 == 0 else "detector",
-                "n_conditions": 4 if tier == "quick" else 8,
+                "n_conditions": 6 if tier == "quick" else 10,
+                "index": i // 2,
             }
         )
     return out
@@ -123,9 +124,13 @@ def _one(sc, r):
 
     for ci in range(sc["n_conditions"]):
         r.count("runs")
-        thr_class = ["never", "always", "mid", "mid"][int(rng.integers(4))]
-        min_class = ["default", "small", "mid", "large", "gt_max"][int(rng.integers(5))]
-        max_class = ["default", "mid", "lt_min", "eq_total", "gt_total"][int(rng.integers(5))]
+        # the (min, max) class grid is walked systematically across the cases of a run, so that every combination
+        # (e.g. default min_steps with an explicit max_steps) is driven, each with a threshold that makes the minimum
+        # the deciding clause at least once
+        j = sc["index"] * sc["n_conditions"] + ci
+        min_class = ["default", "small", "mid", "large", "gt_max"][j % 5]
+        max_class = ["default", "mid", "lt_min", "eq_total", "gt_total"][(j // 5) % 5]
+        thr_class = ["always", "mid", "never", "mid"][(j // 25 + j) % 4] if j >= 25 else "always"
         if sc["kind"] == "energy":
             pos = energy_t[energy_t > 0]
             lo_e, hi_e = (float(pos.min()), float(pos.max())) if len(pos) else (1e-30, 1e-20)
